@@ -126,7 +126,7 @@ func obtainModifiedEarlyResponse(
 		Method:     onRequest.Method,
 		URL:        onRequest.URL,
 		Status:     earlyResponseAction.Status,
-		Headers:    earlyResponseAction.Headers,
+		Headers:    utils.DeepCopyHeaders(earlyResponseAction.Headers),
 		Body:       earlyResponseAction.Body,
 		Time:       onRequest.Time,
 	}
